@@ -19,7 +19,7 @@ ASSUMPTIONS = ['receiver package lists every chemical of the inlets (stated prec
                'flows are finite and non-negative', 'energy_balance=True only drawn for l/g inlets at 280-400 K',
                'Stream.sum / a+b create the result on the current settings thermo, which the check sets to the receiver package']
 REQUIRED_CELLS = {'quick': ['mix:recv=S', 'mix:recv=M', 'mix:multi', 'mix:xpkg', 'mix:self', 'mix:n=0', 'mix:n=1',
-                            'mix:n>=2', 'mix:repeated-inlet', 'mix:receiver-repeated', 'split:scalar', 'split:array', 'split:xpkg', 'split:src=M'],
+                            'mix:n>=2', 'mix:repeated-inlet', 'mix:receiver-repeated', 'split:scalar', 'split:array', 'split:xpkg', 'split:src=M', 'split:outlets-reused'],
                   'thorough': []}
 
 TOL = 1e-12
@@ -182,6 +182,24 @@ def prop_split(ch, ctx):
     n = len(chem.PACKAGES[src['pkg']])
     skind, split = draw_split(ch, n)
     s = vs.build(src); s1 = vs.build(outs[0]); s2 = vs.build(outs[1])
+    # Outlets reused across iterations: an earlier split of another multi-phase feed (phase set overlapping the
+    # checked feed's; material only in the common phases so that the later conversion stays inside C12's domain)
+    # is performed first on the same outlet objects, and their phase sub-streams are touched.
+    if src['kind'] == 'M' and eb and ch.bool('earlier.split'):
+        common = ch.subset('earlier.common', list(src['phases']), min_size=1)
+        extra = ch.subset('earlier.extra', [p for p in vs.ALL_PHASES if p not in src['phases']], max_size=2)
+        first = {'kind': 'M', 'pkg': src['pkg'], 'T': 300.0, 'P': 101325.0, 'phases': common + extra,
+                 'flows': [ch.flows(f'earlier.{p}.flow', n) if p in common else [0.0] * n for p in common + extra]}
+        if len(first['phases']) >= 2:
+            f0 = vs.build(first)
+            try:
+                f0.split_to(s1, s2, 0.5, energy_balance=True)
+                for o in (s1, s2):
+                    if isinstance(o, tmo.MultiStream):
+                        for p in o.phases: _ = o[p].mol
+                ctx.cell('split:outlets-reused')
+            except Exception:
+                ctx.reject('earlier split failed (reported by its own case)')
     feed = vs.totals(s)
     before = vs.by_phase(s)
     cas = list(s.chemicals.CASs)
